@@ -94,11 +94,18 @@ def run_conform(chk, pairs, maxlen, timeout, label):
             r = min(v, key=lambda x: len(x['hist']))
             ok, detail = confirm_on_binary(p, r)
             nviol += 1
+            fid = None
+            try:
+                from gen import enumprog
+                if r['mres'] == 'FAIL' and r.get('lang') and all(l.get('st') == 'fin' for l in r['lang']) and enumprog.lazy_finish_shape(ast['body']):
+                    fid = 'finish-after-skipped-construct'
+            except Exception:
+                fid = None
             chk.violation('no procedural reading explains the compiled machine after input %s (%r) for %s %s: machine status %s, events %s; binary: %s'
                           % (r['hist'], bytes(x for x in r['hist'] if x < 256), p.name, p.args, r['mres'],
                              [e.get('n', e.get('code')) for e in r['mev']], json.dumps(detail)[:300]),
                           {'program': p.name, 'args': p.args, 'source': p.src, 'history': r['hist'], 'machine_status': r['mres'],
-                           'machine_events': r['mev'], 'lang_candidates': r['lang'][:8], 'binary': detail})
+                           'machine_events': r['mev'], 'lang_candidates': r['lang'][:8], 'binary': detail}, fid)
         zp = [r for r in reps if r['kind'] == 'ZEROPROGRESS']
         if zp:
             chk.violation('the procedural reading makes no progress (control flow goes round without consuming) but the program was accepted: %s %s after %s'
@@ -129,9 +136,35 @@ def pinned(chk):
             shutil.rmtree(root, ignore_errors=True)
 
 
+def pinned_status(chk):
+    """pinned witnesses of kind 'status': the code the binary returns for the last symbol of a fixed history"""
+    import os
+    from common import ROOT
+    for k in chk.known:
+        w = k.get('witness', {})
+        if w.get('kind') != 'status':
+            continue
+        src = open(os.path.join(ROOT, w['program'])).read()
+        progs = runner.compile_programs([(w['program'], src, w['args'])])
+        root = runner.scratch_dir()
+        try:
+            runner.build_programs(progs, root)
+            if progs[0].bin:
+                steps, status = mc.replay_hist(progs[0], w['history'])
+                names = trace.rc_names(progs[0].m)
+                last = steps[-1][1][-1] if steps and steps[-1][1] else None
+                rc = names[last['rc']] if last and last.get('rc', 99) < len(names) else '?'
+                if status == 'ok' and rc == w['observed']:
+                    chk.known_hits.append((k['id'], 'pinned witness %s %s history %s: the parser returns %s (prescribed: %s)'
+                                           % (w['program'], w['args'], w['history'], rc, w['prescribed'])))
+        finally:
+            shutil.rmtree(root, ignore_errors=True)
+
+
 def run(tier, seed):
     chk = Check('C01', tier, seed, 'model_checking')
     pinned(chk)
+    pinned_status(chk)
     rng = random.Random(seed * 7919 + 1)
     quick = tier != 'thorough'
     items, asts = gen_items(rng, 260 if quick else 700, FEATURES | {'yield', 'end'})
